@@ -13,10 +13,10 @@ namespace Tcheran
 open Board Game Rules
 
 /-- the key the engine computes from scratch for a rules position -/
-def keyOf (c : Cfg) (p : Pos) : BB := fullHash c (Board.ofSquares p.board) p.player p.rights p.ep
+def posKey (c : Cfg) (p : Pos) : BB := fullHash c (Board.ofSquares p.board) p.player p.rights p.ep
 
-theorem key_ofGame (c : Cfg) (g : Game) (hs : Sync c g) : g.zobrist = keyOf c (ofGame g) := by
-  unfold keyOf ofGame
+theorem key_ofGame (c : Cfg) (g : Game) (hs : Sync c g) : g.zobrist = posKey c (ofGame g) := by
+  unfold posKey ofGame
   simp only
   rw [consistent_ext _ _ (consistent_ofSquares _) hs.cons rfl]
   exact hs.key
@@ -29,9 +29,9 @@ def trail : Pos → List Move → List Pos → List Pos
 /-- **game_history** -/
 theorem game_history (c : Cfg) (g : Game) (ms : List Move) (pos' : Pos) (earlier : List Pos) (hs : Sync c g)
     (h : GInv (ofGame g)) (hp : LegalPath (ofGame g) ms pos')
-    (hh : g.history.map (·.zobrist) = earlier.map (keyOf c)) :
+    (hh : g.history.map (·.zobrist) = earlier.map (posKey c)) :
     ∃ g', makeMoves c g ms = some g' ∧ ofGame g' = pos' ∧ Sync c g' ∧
-      g'.history.map (·.zobrist) = (trail (ofGame g) ms earlier).map (keyOf c) := by
+      g'.history.map (·.zobrist) = (trail (ofGame g) ms earlier).map (posKey c) := by
   generalize hpos : ofGame g = pos at hp
   induction hp generalizing g earlier with
   | nil _ => exact ⟨g, rfl, hpos, hs, hh⟩
@@ -42,7 +42,7 @@ theorem game_history (c : Cfg) (g : Game) (ms : List Move) (pos' : Pos) (earlier
     have hs1 : Sync c g1 := sync_makeMove c g g1 m hs hg1 (castle_hyp_of_legal g m hl)
     have hi1 : GInv (ofGame g1) := by rw [hr]; exact ginv_apply _ m h hl
     obtain ⟨_, _, _, _, _, _, _, hhist, _⟩ := makeMove_mailbox c g g1 m hg1
-    have hh1 : g1.history.map (·.zobrist) = (ofGame g :: earlier).map (keyOf c) := by
+    have hh1 : g1.history.map (·.zobrist) = (ofGame g :: earlier).map (posKey c) := by
       rw [hhist, List.map_cons, List.map_cons, hh, ← key_ofGame c g hs]
     obtain ⟨g', hg', e, hs', hh'⟩ := ih g1 (ofGame g :: earlier) hs1 hi1 hh1 hr
     refine ⟨g', ?_, e, hs', ?_⟩
@@ -52,11 +52,11 @@ theorem game_history (c : Cfg) (g : Game) (ms : List Move) (pos' : Pos) (earlier
     · rw [hh']
       rfl
 
-theorem samePosition_key (c : Cfg) (a b : Pos) (h : samePosition a b = true) : keyOf c b = keyOf c a := by
+theorem samePosition_key (c : Cfg) (a b : Pos) (h : samePosition a b = true) : posKey c b = posKey c a := by
   unfold samePosition at h
   simp only [Bool.and_eq_true, beq_iff_eq] at h
   obtain ⟨⟨⟨h1, h2⟩, h3⟩, h4⟩ := h
-  unfold keyOf
+  unfold posKey
   rw [h1, h2, h3, h4]
 
 end Tcheran
